@@ -59,6 +59,9 @@ import (
 
 var debugPanics = os.Getenv("VERIF_DEBUG") != ""
 
+// notHandled is returned by an intrinsic that wants the real body to run.
+type notHandled struct{}
+
 type continuation int
 
 const (
@@ -512,7 +515,9 @@ func callSSA(i *interpreter, caller *frame, callpos token.Pos, fn *ssa.Function,
 			if i.mode&EnableTracing != 0 {
 				fmt.Fprintln(os.Stderr, "\t(external)")
 			}
-			return ext(fr, args)
+			if r := ext(fr, args); r != (notHandled{}) {
+				return r
+			}
 		}
 		if fn.Blocks == nil {
 			panic(engineError{"no code for function: " + name})
